@@ -14,6 +14,7 @@ func init() { props["C15"] = runC15 }
 
 func runC15(c *Ctx) {
 	c15Durations(c)
+	c15Instants(c)
 }
 
 func durMarshal(d int64) (res *string, panicked bool) {
